@@ -399,10 +399,7 @@ func RegionsFromGFF(anno gff.GFF, refSeqDegapped string) ([]Region, []int, error
 		tempcds = append(tempcds, r)
 	}
 
-	// get a slide of positions that are not coding based on everything above
-	inter := codes(tempcds, len(refSeqDegapped))
-
-	// then make the final coding regions based on what has a name
+	// make the final coding regions based on what has a name
 	cds := make([]Region, 0)
 	for _, r := range tempcds {
 		if r.Name == "" {
@@ -410,6 +407,10 @@ func RegionsFromGFF(anno gff.GFF, refSeqDegapped string) ([]Region, []int, error
 		}
 		cds = append(cds, r)
 	}
+
+	// get a slice of positions that are not in any of those regions: an unnamed CDS is not
+	// annotated with amino acid changes, so the nucleotide changes in it must be reported as such
+	inter := codes(cds, len(refSeqDegapped))
 
 	// sort by start position
 	sort.SliceStable(cds, func(j, k int) bool {
